@@ -16,9 +16,12 @@ META = dict(
     watchdog_s={"quick": 1500, "thorough": 5400},
     evaluations_counter="cases",
     min={"backward_passes": 400, "grad_checks:input": 400, "grad_checks:weight": 200, "grad_checks:bias": 100,
-         "frozen_checks": 80, "weight_updates": 150, "noncontiguous_upstream": 60, "quantized_inputs": 80},
+         "frozen_checks": 80, "weight_updates": 150, "noncontiguous_upstream": 60, "quantized_inputs": 80,
+         "ste_checks": 300, "ste_checks:qbits": 80, "ste_checks:activation": 60},
     anchors=["tensor/qtensor_func.py:QTensorLinear.forward", "tensor/qtensor_func.py:QTensorLinear.backward",
-             "tensor/quantizers/symmetric.py:SymmetricQuantizer.backward", "nn/qmodule.py:QModuleMixin.qweight"],
+             "tensor/quantizers/symmetric.py:SymmetricQuantizer.backward", "nn/qmodule.py:QModuleMixin.qweight",
+             "tensor/quantizers/affine.py:AffineQuantizer.backward", "tensor/qbits/qbits.py:QBitsDequantizer.backward",
+             "tensor/qbytes.py:QBytesDequantizer.backward"],
     rule="case = quantized Linear or Conv2d (all weight qtypes, activations None/qint8/qfloat8, three dtypes, bias "
          "on/off, frozen or not) x input rank 1-4 x upstream gradient {random, one-hot, transposed (non-contiguous), "
          "expanded (stride 0), zeros} x 0-5 in-place weight updates interleaved with forwards. Gradients reaching the "
@@ -27,7 +30,10 @@ META = dict(
          "quantize/dequantize); frozen weights and scales must have no gradient; after every update the quantized "
          "weight used by the next forward must be within one step of the updated float weight. Non-trivial when the "
          "input rank is not 3, or the upstream gradient is non-contiguous, or there is >=1 weight update; distinct by "
-         "configuration tuple",
+         "configuration tuple. Every case also runs one tensor-level straight-through check: a float leaf (rank 1-4, "
+         "possibly a non-contiguous view of the leaf) -> quantize_weight / quantize_activation -> optional "
+         "gradient-transparent views -> dequantize() -> backward(G): the leaf's gradient must be exactly G mapped back "
+         "through the views (bit-identical: identity maps add no rounding), the scale must receive none",
     assumptions=["tolerance: dot_bound(c=8) of the corresponding contraction + 2*eps(dtype)*sum|terms|",
                  "the upstream gradient is applied to out.dequantize() when the module output is quantized"],
 )
@@ -80,6 +86,80 @@ def compare(ctx, what, got, ref, absdot, K, wd, sig0, desc):
                       dict(desc=desc, **oracles._first(bad, got=G, want=ref, diff=diff, tol=tol)))
 
 
+def ste_check(ctx, oq, r, wd):
+    """quantize -> dequantize is an identity map for gradients (tensor level, no module)."""
+    wq = WQ[int(r.integers(len(WQ)))]
+    act = wq in ("qint8", "qfloat8_e4m3fn", "qfloat8_e5m2") and r.random() < 0.35
+    low = wq in ("qint4", "qint2")
+    rank = int(r.integers(1 if act else 2, 5)) if not low else int(r.integers(2, 4))
+    shape = tuple(int(r.choice([1, 2, 3, 4, 8, 32])) for _ in range(rank))
+    axis = int(r.choice([0, -1]))
+    gs = None
+    if low:
+        shape = tuple(int(r.choice([2, 4, 8, 16, 64])) for _ in range(rank))
+        per = int(np.prod(shape)) // shape[axis]
+        divs = [g for g in (2, 4, 8, 16, 32, 64, 128) if per % g == 0 and g <= per]
+        gs = int(r.choice(divs)) if divs and r.random() < 0.7 else None
+    leaf = (torch.from_numpy(r.standard_normal(shape)) * float(10.0 ** r.uniform(-3, 2))).to(wd).requires_grad_(True)
+    lay = ["plain", "plain", "mul1", "transposed", "sliced"][int(r.integers(5))]
+    src = leaf
+    if lay == "mul1":
+        src = leaf * 1.0  # a non-leaf with a grad_fn
+    elif lay == "transposed" and rank >= 2 and not low:
+        src = leaf.transpose(0, -1)
+    elif lay == "sliced" and shape[0] >= 2 and not low:
+        src = leaf[::2]
+    sig = dict(prop="C11", part="ste", qtype=wq if low else ("float8" if "float8" in wq else "int8"),
+               api="quantize_activation" if act else "quantize_weight", layout=lay)
+    desc = dict(shape=list(shape), axis=axis, group_size=gs, dtype=str(wd), layout=lay, qtype=wq)
+    scale = None
+    try:
+        if act:
+            qmax = 127.0 if wq == "qint8" else float(torch.finfo(oq.qtypes[wq].dtype).max)
+            scale = (src.detach().abs().max().to(F64) / qmax).clamp(min=1e-6).to(wd)
+            if r.random() < 0.5:
+                scale.requires_grad_(True)  # a scale that could receive a gradient must still get none
+            q = oq.quantize_activation(src, oq.qtypes[wq], scale)
+        else:
+            q = oq.quantize_weight(src, oq.qtypes[wq], axis, gs) if low else oq.quantize_weight(src, oq.qtypes[wq], axis)
+        dq = q.dequantize()
+        if not dq.requires_grad:
+            ctx.violation(dict(sig, kind="dequantized_value_detached_from_source"), dict(desc=desc))
+            return
+        G = upstream(r, UP[int(r.integers(len(UP)))], tuple(dq.shape), wd)
+        dq.backward(G)
+    except Exception as e:
+        ctx.violation(dict(sig, kind="ste_raises", exc=type(e).__name__), dict(desc=desc, msg=str(e)[:300]))
+        return
+    ctx.count("ste_checks")
+    ctx.count("ste_checks:" + ("activation" if act else "qbits" if low else "qbytes"))
+    ctx.see("ste_layouts", lay)
+    # reference: the same views applied to a float leaf, identity in between
+    ref_leaf = torch.zeros(shape, dtype=wd).requires_grad_(True)
+    rs = ref_leaf
+    if lay == "mul1":
+        rs = ref_leaf * 1.0
+    elif lay == "transposed" and rank >= 2 and not low:
+        rs = ref_leaf.transpose(0, -1)
+    elif lay == "sliced" and shape[0] >= 2 and not low:
+        rs = ref_leaf[::2]
+    rs.backward(G)
+    if leaf.grad is None:
+        ctx.violation(dict(sig, kind="gradient_missing", which="ste_source"), dict(desc=desc))
+        return
+    if tuple(leaf.grad.shape) != tuple(ref_leaf.grad.shape) or not torch.equal(leaf.grad, ref_leaf.grad):
+        bad = leaf.grad.to(F64) != ref_leaf.grad.to(F64) if tuple(leaf.grad.shape) == tuple(ref_leaf.grad.shape) else None
+        ctx.violation(dict(sig, kind="quantize_dequantize_not_identity_for_gradient"),
+                      dict(desc=desc, **(oracles._first(bad, got=leaf.grad.to(F64), want=ref_leaf.grad.to(F64))
+                                         if bad is not None else dict(got_shape=list(leaf.grad.shape)))))
+    if scale is not None and scale.grad is not None:
+        ctx.violation(dict(sig, kind="scale_receives_gradient", which="activation_scale"), dict(desc=desc))
+    inn = fp.inner(fp.unwrap_param(q))[0]
+    for k, v in inn.items():
+        if k in ("_scale", "_zeropoint") and isinstance(v, torch.Tensor) and (v.requires_grad and k == "_zeropoint"):
+            ctx.violation(dict(sig, kind="inner_requires_grad", which=k), dict(desc=desc))
+
+
 def run(ctx):
     import optimum.quanto as oq
 
@@ -123,6 +203,7 @@ def run(ctx):
             if not ctx.case(desc):
                 continue
             r = ctx.crng
+            ste_check(ctx, oq, r, wd)
             sig0 = dict(module="conv" if conv else "linear",
                         weights=wq if wq in ("qint4", "qint2") else ("float8" if "float8" in wq else "int8"),
                         activations="none" if aq is None else "on", frozen=frozen)
